@@ -30,6 +30,10 @@ func init() {
 				r.Rule("R03g", "SIBLING-TEST: in the hashing core siblinghood is never concluded from rightSib(a) == b alone (rightSib(a) == a for a right child); the test is joined with 'a is a left child'")
 				checkSiblingTests(p, r, "R03g", resolveVerifyAnchors(p))
 			}},
+			{ID: "R03j", Statement: "every claimed hash takes part in the computation", Run: func(p *Program, r *Report) {
+				r.Rule("R03j", "CLAIM-CURSOR-READS: in the hashing core a cursor over a list of hashes advances only where the hash at the cursor has been read in that iteration (no claimed hash is skipped unread)")
+				checkClaimCursorReads(p, r, "R03j", resolveVerifyAnchors(p))
+			}},
 			{ID: "R03i", Statement: "both inputs of the parent-hash step are supplied on every path", Run: func(p *Program, r *Report) {
 				r.Rule("R03i", "SIBLING-ALWAYS-SUPPLIED: in the hashing core neither hash input of the parent-hash step can be the default value of its variable (a path that assigns no sibling because the proof ran out)")
 				checkSiblingSupplied(p, r, "R03i", resolveVerifyAnchors(p))
